@@ -273,7 +273,28 @@ def image_constructor_sites(repo, tier):
                 fnode = dict((id(c), f) for c, f in sites)[id(call)]
                 n_sites += 1
                 kw = call_kwargs(call, names)
-                if any(k_.arg is None for k_ in call.keywords):
+                star = [k_ for k_ in call.keywords if k_.arg is None]
+                expanded = True
+                for k_ in star:
+                    lit = None
+                    if isinstance(k_.value, ast.Name) and isinstance(fnode, (ast.FunctionDef, ast.AsyncFunctionDef)):
+                        defs = single_defs(fnode, k_.value.id)
+                        if len(defs) == 1 and defs[0][0] == "assign":
+                            lit = defs[0][1]
+                        # later item stores kwargs["k"] = v are not followed
+                        if any(isinstance(n, ast.Subscript) and isinstance(n.value, ast.Name) and n.value.id == k_.value.id and isinstance(n.ctx, ast.Store)
+                               for n in own_walk(fnode)) or any(isinstance(n, ast.Call) and isinstance(n.func, ast.Attribute) and isinstance(n.func.value, ast.Name)
+                                                                and n.func.value.id == k_.value.id and n.func.attr in ("update", "setdefault", "pop") for n in own_walk(fnode)):
+                            lit = None
+                    elif isinstance(k_.value, (ast.Dict, ast.Call)):
+                        lit = k_.value
+                    if isinstance(lit, ast.Dict) and all(isinstance(x, ast.Constant) and isinstance(x.value, str) for x in lit.keys):
+                        kw.update({x.value: v for x, v in zip(lit.keys, lit.values)})
+                    elif isinstance(lit, ast.Call) and dotted(lit.func) == "dict" and not lit.args and all(x.arg for x in lit.keywords):
+                        kw.update({x.arg: x.value for x in lit.keywords})
+                    else:
+                        expanded = False
+                if star and not expanded:
                     obls.append(ground_obligation(f"C04/{short(rel)}::{q}/call-pre#{cls}-invariants@{k}", False,
                                                   f"{rel}:{call.lineno} **kwargs constructor call", rel, definite=False))
                     continue
@@ -362,7 +383,7 @@ def _size_obligation(oid, rel, call, fnode, cls, pf, p_e, z_e, p_given, z_given)
         return ground_obligation(oid, True, f"{loc} size_bytes is len() of the payload expression", rel, backend="z3")
     why = f"{loc} {cls}({pf}={ast.unparse(p_e) if p_e is not None else 'default'}, {SIZE_FIELD}={ast.unparse(z_e) if z_e is not None else 'default'}): " \
           f"the reported size is not len() of the stored payload"
-    definite = r == z3.sat and T.exact
+    definite = r == z3.sat and T.exact and len(T.atoms) <= 1
     o = ground_obligation(oid, False, why, rel, definite=definite, backend="z3")
     o["replay_hint"] = {"kind": "image-size", "class": cls}
     return o
@@ -382,11 +403,23 @@ def _dominating_increment(ix, fnode, site_stmt, name):
                     if isinstance(s, ast.AugAssign) and isinstance(s.target, ast.Name) and s.target.id == name and isinstance(s.op, ast.Add) \
                             and isinstance(s.value, ast.Constant) and isinstance(s.value.value, int) and s.value.value >= 1:
                         return True
+                    if isinstance(s, ast.Assign) and len(s.targets) == 1 and isinstance(s.targets[0], ast.Name) and s.targets[0].id == name \
+                            and (_is_self_increment(s.value, name) or 0) >= 1:
+                        return True
         if isinstance(parent, ast.ExceptHandler):
             # handler of a try: statements of the try body need not have run
             pass
         cur = parent if isinstance(parent, ast.stmt) or isinstance(parent, ast.ExceptHandler) else ix.stmt_of(parent)
     return False
+
+
+def _is_self_increment(value, name):
+    """k for `name + k` / `k + name` with a constant k >= 0, else None."""
+    if isinstance(value, ast.BinOp) and isinstance(value.op, ast.Add):
+        for a, b in ((value.left, value.right), (value.right, value.left)):
+            if isinstance(a, ast.Name) and a.id == name and isinstance(b, ast.Constant) and isinstance(b.value, int) and b.value >= 0:
+                return b.value
+    return None
 
 
 def _counter_discipline(fnode, name):
@@ -399,6 +432,8 @@ def _counter_discipline(fnode, name):
         elif d[0] == "aug" and isinstance(d[1], ast.Add) and isinstance(d[2], ast.Constant) and isinstance(d[2].value, int) and d[2].value >= 0:
             continue
         elif d[0] == "aug" and isinstance(d[1], ast.Add) and isinstance(d[2], ast.Call) and dotted(d[2].func) == "len":
+            continue
+        elif d[0] == "assign" and _is_self_increment(d[1], name) is not None:
             continue
         elif d[0] == "param":
             lo = 0 if lo is None else min(lo, 0)          # obligation on the callers: checked by _param_nonneg
@@ -414,9 +449,18 @@ def _number_obligation(oid, rel, mod, ix, call, fnode, cls, nf, e, default, give
     hint = {"kind": "image-number", "class": cls}
 
     def res(ok, why, definite=True):
-        o = ground_obligation(oid, ok, f"{loc} {why}", rel, definite=definite)
+        # the number at the constructor can be overwritten before the object is published (renumbering passes): a failed
+        # site obligation is a question for the native replayer, never a refutation by itself
+        o = ground_obligation(oid, ok, f"{loc} {why}", rel, definite=False)
         o["replay_hint"] = hint
         return o
+    if isinstance(e, ast.BinOp) and isinstance(e.op, ast.Add) and any(isinstance(x, ast.Constant) and isinstance(x.value, int) and x.value >= 1 for x in (e.left, e.right)) \
+            and any(isinstance(x, ast.Call) and dotted(x.func) == "len" for x in (e.left, e.right)):
+        return res(True, f"{nf}=len(...) + k with k >= 1")
+    if isinstance(e, ast.BinOp) and isinstance(e.op, ast.Add) and isinstance(fnode, (ast.FunctionDef, ast.AsyncFunctionDef)):
+        okp, whyp = _store_positive(ix, fnode, ix.stmt_of(call), e)
+        if okp:
+            return res(True, f"{nf}={ast.unparse(e)}: {whyp}")
     if not given:
         d = default.value if isinstance(default, ast.Constant) else None
         if isinstance(d, int) and d >= 1:
@@ -565,7 +609,7 @@ def field_store_sites(repo, tier):
                     per_fn.setdefault(q, []).append((t, value, fnode, n))
         for q, sites in sorted(per_fn.items()):
             for k, (t, value, fnode, stmt) in enumerate(sorted(sites, key=lambda x: (x[0].lineno, x[0].col_offset))):
-                oid = f"C04/{short(rel)}::{q}/field-store#{t.attr}@{k}"
+                oid = f"C04/{short(rel)}::{q}/call-pre#store-{t.attr}@{k}"
                 loc = f"{rel}:{t.lineno}"
                 base = t.value
                 cls_q = q.split(".")[0] if "." in q else None
@@ -621,7 +665,7 @@ def field_store_sites(repo, tier):
             for k, (call, fnode, hits) in enumerate(sorted(sites, key=lambda x: (x[0].lineno, x[0].col_offset))):
                 loc = f"{rel}:{call.lineno}"
                 kws = dict(hits)
-                oid = f"C04/{short(rel)}::{q}/field-store#indirect-{'-'.join(sorted(str(h[0]) for h in hits))}@{k}"
+                oid = f"C04/{short(rel)}::{q}/call-pre#store-indirect-{'-'.join(sorted(str(h[0]) for h in hits))}@{k}"
                 target = call.args[0] if call.args else None
                 cls_q = q.split(".")[0] if "." in q else None
                 if isinstance(call.func, ast.Attribute) and call.func.attr == "__setattr__":
@@ -631,6 +675,13 @@ def field_store_sites(repo, tier):
                 if is_self and cls_q is not None and cls_q not in img and "**" not in kws:
                     obls.append(ground_obligation(oid, True, f"{loc} field of {cls_q} (not an image)", rel))
                     continue
+                # the target is an object built by the constructor of a result class that is not an image class
+                if isinstance(target, ast.Name) and isinstance(fnode, (ast.FunctionDef, ast.AsyncFunctionDef)) and "**" not in kws:
+                    tdefs = single_defs(fnode, target.id)
+                    if tdefs and all(d[0] == "assign" and isinstance(d[1], ast.Call) and dotted(d[1].func).split(".")[-1] in dt.classes
+                                     and dotted(d[1].func).split(".")[-1] not in img for d in tdefs):
+                        obls.append(ground_obligation(oid, True, f"{loc} {target.id} is a {dotted(tdefs[0][1].func)} (not an image)", rel))
+                        continue
                 pf = next((f for f in PAYLOAD_FIELDS if f in kws), None)
                 if pf is not None and SIZE_FIELD in kws and not (set(kws) & set(NUMBER_FIELDS)):
                     o = _size_obligation(oid, rel, call, fnode, "replace", pf, kws[pf], kws[SIZE_FIELD], True, True)
@@ -654,6 +705,27 @@ def _possible_strings(ix, at, e, depth=0):
     if not isinstance(e, ast.Name) or depth > 3:
         return None
     q, fnode = ix.enclosing(at)
+    # name bound once to a lookup in a constant dict: TABLE.get(key[, default]) / TABLE[key]
+    if isinstance(fnode, (ast.FunctionDef, ast.AsyncFunctionDef)):
+        defs = single_defs(fnode, e.id)
+        if len(defs) == 1 and defs[0][0] == "assign":
+            v = defs[0][1]
+            tab = None
+            if isinstance(v, ast.Call) and isinstance(v.func, ast.Attribute) and v.func.attr == "get" and v.args:
+                tab = _const_container(ix, fnode, v.func.value)
+                dflt = v.args[1] if len(v.args) > 1 else None
+                if dflt is not None and not (isinstance(dflt, ast.Constant) and (dflt.value is None or isinstance(dflt.value, str))):
+                    tab = None
+            elif isinstance(v, ast.Subscript):
+                tab = _const_container(ix, fnode, v.value)
+                dflt = None
+            if isinstance(tab, ast.Dict) and all(isinstance(x, ast.Constant) for x in tab.values):
+                out = {x.value for x in tab.values if isinstance(x.value, str)}
+                if isinstance(v, ast.Call) and len(v.args) > 1 and isinstance(v.args[1].value, str):
+                    out.add(v.args[1].value)
+                return out
+            if isinstance(v, ast.Constant) and isinstance(v.value, str):
+                return {v.value}
     cur = at
     for a in ix.ancestors(at):
         if isinstance(a, ast.For) and _within(cur, a.body):
@@ -669,6 +741,22 @@ def _possible_strings(ix, at, e, depth=0):
         if a is fnode:
             break
         cur = a
+    return None
+
+
+def _const_container(ix, fnode, e):
+    """The literal display a name denotes: bound once in the function, or a module-level constant never rebound."""
+    if isinstance(e, (ast.Dict, ast.List, ast.Tuple, ast.Set)):
+        return e
+    if isinstance(e, ast.Name):
+        if isinstance(fnode, (ast.FunctionDef, ast.AsyncFunctionDef)):
+            defs = single_defs(fnode, e.id)
+            if defs:
+                return defs[0][1] if len(defs) == 1 and defs[0][0] == "assign" and isinstance(defs[0][1], (ast.Dict, ast.List, ast.Tuple, ast.Set)) else None
+        v = ix.mod.assigns.get(e.id)
+        if isinstance(v, (ast.Dict, ast.List, ast.Tuple, ast.Set)):
+            n_bind = sum(1 for n in ast.walk(ix.mod.tree) if isinstance(n, ast.Name) and n.id == e.id and isinstance(n.ctx, ast.Store))
+            return v if n_bind == 1 else None
     return None
 
 
@@ -694,6 +782,16 @@ def _strings_of_iterable(ix, at, it, pos, fnode, depth):
                 return None
             out |= r
         return out
+    if isinstance(it, ast.Name) and isinstance(fnode, (ast.FunctionDef, ast.AsyncFunctionDef)) and depth <= 3 and not single_defs(fnode, it.id):
+        c = _const_container(ix, fnode, it)
+        return _strings_of_iterable(ix, at, c, pos, fnode, depth + 1) if c is not None else None
+    if isinstance(it, ast.Call) and isinstance(it.func, ast.Attribute) and it.func.attr == "items" and isinstance(it.func.value, ast.Name):
+        c = _const_container(ix, fnode, it.func.value)
+        if isinstance(c, ast.Dict):
+            ks = [k for k in c.keys] if pos == 0 else ([v for v in c.values] if pos == 1 else list(c.keys) + list(c.values))
+            if all(isinstance(x, ast.Constant) for x in ks):
+                return {x.value for x in ks if isinstance(x.value, str)}
+        return None
     if isinstance(it, ast.Name) and isinstance(fnode, (ast.FunctionDef, ast.AsyncFunctionDef)) and depth <= 3:
         defs = single_defs(fnode, it.id)
         out = set()
@@ -738,6 +836,15 @@ def _strings_of_iterable(ix, at, it, pos, fnode, depth):
 
 
 def _store_positive(ix, fnode, stmt, value):
+    if isinstance(value, ast.BinOp) and isinstance(value.op, ast.Add):
+        for a, b in ((value.left, value.right), (value.right, value.left)):
+            if isinstance(a, ast.Name) and isinstance(b, ast.Constant) and isinstance(b.value, int):
+                ld = enclosing_loop_def(ix, stmt, a.id, fnode)
+                if ld is not None and ld[2] == 0 and _enumerate_start(ld[1]) is not None:
+                    tot = _enumerate_start(ld[1]) + b.value
+                    return tot >= 1, f"enumerate(..., start={_enumerate_start(ld[1])}) + {b.value}"
+            if isinstance(a, ast.Call) and dotted(a.func) == "len" and isinstance(b, ast.Constant) and isinstance(b.value, int) and b.value >= 1:
+                return True, "len(...) + k with k >= 1"
     if isinstance(value, ast.Name):
         ld = enclosing_loop_def(ix, stmt, value.id, fnode)
         if ld is not None and ld[2] == 0 and _enumerate_start(ld[1]) is not None:
@@ -794,6 +901,13 @@ class ChrAnalysis:
                 if isinstance(call, ast.Call) and isinstance(call.func, ast.Attribute) and call.func.attr in ("sub", "subn") and a in call.args:
                     return self.patterns.get(dotted(call.func.value))
                 return None
+        # parameter of a named function that is only ever used as the replacement callback of PATTERN.sub(fn, ...)
+        if isinstance(self.fnode, (ast.FunctionDef, ast.AsyncFunctionDef)):
+            params = [a.arg for a in self.fnode.args.posonlyargs + self.fnode.args.args if a.arg not in ("self", "cls")]
+            if params and params[0] == name and not [d for d in single_defs(self.fnode, name) if d[0] != "param"]:
+                tab = self._callback_pattern(self.fnode.name)
+                if tab is not None:
+                    return tab
         if isinstance(self.fnode, (ast.FunctionDef, ast.AsyncFunctionDef)):
             defs = single_defs(self.fnode, name)
             tabs = []
@@ -807,6 +921,24 @@ class ChrAnalysis:
                     return None
             if tabs and all(t is not None for t in tabs) and all(t == tabs[0] for t in tabs):
                 return tabs[0]
+        return None
+
+    def _callback_pattern(self, fname):
+        """Group table of the pattern when every reference to function `fname` in the module is the replacement argument of
+        <compiled pattern>.sub / subn (so its parameter is a match object of that pattern); None otherwise."""
+        tabs = []
+        for n in ast.walk(self.mod.tree):
+            ref = (isinstance(n, ast.Name) and n.id == fname and isinstance(n.ctx, ast.Load)) or \
+                  (isinstance(n, ast.Attribute) and n.attr == fname and isinstance(n.ctx, ast.Load))
+            if not ref:
+                continue
+            call = self.ix.parent.get(id(n))
+            if isinstance(call, ast.Call) and isinstance(call.func, ast.Attribute) and call.func.attr in ("sub", "subn") and call.args and call.args[0] is n:
+                tabs.append(self.patterns.get(dotted(call.func.value)))
+            else:
+                return None
+        if tabs and all(t is not None and t == tabs[0] for t in tabs):
+            return tabs[0]
         return None
 
     def int_of_text(self, e, base, at):
@@ -943,12 +1075,16 @@ class ChrAnalysis:
                         return res
             if a is self.fnode:
                 break
-        if isinstance(self.fnode, (ast.FunctionDef, ast.AsyncFunctionDef)):
+        if isinstance(self.fnode, (ast.FunctionDef, ast.AsyncFunctionDef, ast.Module)):
             defs = single_defs(self.fnode, name)
             if len(defs) == 1 and defs[0][0] == "assign":
                 res = self.expr(defs[0][1], defs[0][2])
             elif len(defs) == 1 and defs[0][0] == "for" and defs[0][2] is None:
-                res = self.iter_range(defs[0][1], at)
+                res = self.element(defs[0][1], at)
+            elif defs and all(d[0] == "for" for d in defs):
+                ld = enclosing_loop_def(self.ix, at, name, self.fnode)
+                if ld is not None and ld[2] is None:
+                    res = self.element(ld[1], at)
         if res is not None:
             # one z3 variable per program variable so that guards talk about the same value
             v = z3.Int(f"var_{name}")
@@ -1147,7 +1283,7 @@ def chr_sites(repo, tier):
         for q, sites in sorted(per_fn.items()):
             for k, (node, fnode, kind, payload) in enumerate(sorted(sites, key=lambda x: (x[0].lineno, x[0].col_offset))):
                 n_sites += 1
-                oid = f"C04/{short(rel)}::{q}/wf#chr-site-{k}"
+                oid = f"C04/{short(rel)}::{q}/call-pre#chr-wf@{k}"
                 obls.append(_chr_obligation(oid, rel, mod, ix, fnode, node, pats, q, k, kind, payload))
     obls.append(ground_obligation("C04/package/wf#chr-sites-scanned", True, f"{n_sites} int->character sites (chr calls, chr as a value, "
                                   f"'c' formats, translate tables) in the parsing package", "package"))
@@ -1162,6 +1298,15 @@ def _chr_obligation(oid, rel, mod, ix, fnode, call, pats, q, k, kind="call", pay
     p = ix.parent.get(id(call))
     if kind == "call" and isinstance(p, ast.Subscript) and p.slice is call and isinstance(p.ctx, ast.Store):
         return ground_obligation(oid, True, f"{loc} {src} is only used as a dictionary key (not a source of text)", rel)
+    if kind == "call" and isinstance(p, ast.Assign) and len(p.targets) == 1 and isinstance(p.targets[0], ast.Name) and p.value is call:
+        v = p.targets[0].id
+        uses = [n for n in own_walk(fnode) if isinstance(n, ast.Name) and n.id == v and isinstance(n.ctx, ast.Load)]
+        def key_use(n):
+            pp = ix.parent.get(id(n))
+            return (isinstance(pp, ast.Subscript) and pp.slice is n) or (isinstance(pp, ast.Compare) and any(isinstance(o, (ast.In, ast.NotIn)) for o in pp.ops) and pp.left is n)
+        n_bind = len(single_defs(fnode, v))
+        if uses and n_bind == 1 and all(key_use(n) for n in uses):
+            return ground_obligation(oid, True, f"{loc} {src} is only used (via {v}) as a dictionary key (not a source of text)", rel)
     A = ChrAnalysis(mod, ix, fnode, pats)
     if kind == "value" or payload is None:
         o = ground_obligation(oid, False, f"{loc} `{src}`: the builtin chr / a character format is used in a way whose integer argument "
@@ -1209,28 +1354,38 @@ def _norm_codec(s):
     return s.lower().replace("-", "_")
 
 
-def _codec_values(A_fnode, e, depth=0):
-    """Set of constant codec names an expression can take, or None when it depends on the input."""
+def _codec_values(A_fnode, e, depth=0, ix=None):
+    """Set of constant strings (codec names / error handlers) an expression can take, or None when it depends on the input.
+    Follows local bindings, loops over literal sequences, hoisted module constants and -- for a parameter -- the arguments at
+    every call site of the function in the module."""
     if e is None:
         return {"utf-8"}
     if isinstance(e, ast.Constant) and isinstance(e.value, str):
         return {e.value}
     if isinstance(e, ast.IfExp):
-        a, b = _codec_values(A_fnode, e.body, depth), _codec_values(A_fnode, e.orelse, depth)
+        a, b = _codec_values(A_fnode, e.body, depth, ix), _codec_values(A_fnode, e.orelse, depth, ix)
         return None if a is None or b is None else a | b
     if isinstance(e, ast.BoolOp) and isinstance(e.op, ast.Or):
-        vals = [_codec_values(A_fnode, v, depth) for v in e.values]
+        vals = [_codec_values(A_fnode, v, depth, ix) for v in e.values]
         return None if any(v is None for v in vals) else set().union(*vals)
-    if isinstance(e, ast.Name) and depth < 3 and isinstance(A_fnode, (ast.FunctionDef, ast.AsyncFunctionDef)):
-        defs = single_defs(A_fnode, e.id)
+    if isinstance(e, ast.Name) and depth < 4:
+        defs = single_defs(A_fnode, e.id) if isinstance(A_fnode, (ast.FunctionDef, ast.AsyncFunctionDef)) else []
         if not defs:
+            if ix is not None and e.id in ix.mod.assigns:
+                n_bind = sum(1 for n in ast.walk(ix.mod.tree) if isinstance(n, ast.Name) and n.id == e.id and isinstance(n.ctx, ast.Store))
+                return _codec_values(None, ix.mod.assigns[e.id], depth + 1, ix) if n_bind == 1 else None
             return None
         out = set()
         for d in defs:
             if d[0] == "assign":
-                v = _codec_values(A_fnode, d[1], depth + 1)
-            elif d[0] == "for" and d[2] is None and isinstance(d[1], (ast.Tuple, ast.List)) and all(isinstance(x, ast.Constant) and isinstance(x.value, str) for x in d[1].elts):
-                v = {x.value for x in d[1].elts}
+                v = _codec_values(A_fnode, d[1], depth + 1, ix)
+            elif d[0] == "for" and d[2] is None:
+                seq = d[1]
+                if isinstance(seq, ast.Name) and ix is not None:
+                    seq = _const_container(ix, A_fnode, seq)
+                v = {x.value for x in seq.elts} if isinstance(seq, (ast.Tuple, ast.List)) and all(isinstance(x, ast.Constant) and isinstance(x.value, str) for x in seq.elts) else None
+            elif d[0] == "param" and ix is not None:
+                v = _param_strings(ix, A_fnode, e.id, depth)
             else:
                 v = None
             if v is None:
@@ -1238,6 +1393,30 @@ def _codec_values(A_fnode, e, depth=0):
             out |= v
         return out
     return None
+
+
+def _param_strings(ix, fnode, pname, depth):
+    """Constant strings passed for parameter `pname` at every call site of fnode in the module (default included)."""
+    sites = [c for c in _call_sites_of(ix.mod, fnode.name)]
+    if not sites:
+        return None
+    out = set()
+    a = fnode.args
+    names = [x.arg for x in a.posonlyargs + a.args]
+    dflt = dict(zip(names[len(names) - len(a.defaults):], a.defaults))
+    dflt.update({k.arg: v for k, v in zip(a.kwonlyargs, a.kw_defaults) if v is not None})
+    for c in sites:
+        arg = _arg_for(c, fnode, pname)
+        if arg is None:
+            arg = dflt.get(pname)
+            if arg is None:
+                return None
+        q, caller = ix.enclosing(c)
+        v = _codec_values(caller, arg, depth + 1, ix)
+        if v is None:
+            return None
+        out |= v
+    return out
 
 
 def decode_sites(repo, tier):
@@ -1258,7 +1437,7 @@ def decode_sites(repo, tier):
         for q, sites in sorted(per_fn.items()):
             for k, (call, fnode, kind) in enumerate(sorted(sites, key=lambda x: (x[0].lineno, x[0].col_offset))):
                 n_sites += 1
-                oid = f"C04/{short(rel)}::{q}/wf#decode-site-{k}"
+                oid = f"C04/{short(rel)}::{q}/call-pre#decode-wf@{k}"
                 pos = list(call.args[1:] if kind in ("str", "codecs.decode") else call.args)
                 kw = {k_.arg: k_.value for k_ in call.keywords}
                 enc = kw.get("encoding", pos[0] if pos else None)
@@ -1271,6 +1450,9 @@ def decode_sites(repo, tier):
                     ev = "strict"
                 elif isinstance(err, ast.Constant) and isinstance(err.value, str):
                     ev = err.value
+                elif _codec_values(fnode, err, 0, ix) is not None and len(_codec_values(fnode, err, 0, ix)) >= 1:
+                    evs = _codec_values(fnode, err, 0, ix)
+                    ev = next((x for x in sorted(evs) if x in UNSAFE_ERRORS), None) or next((x for x in sorted(evs) if x not in SAFE_ERRORS), None) or sorted(evs)[0]
                 else:
                     ev = None
                 if ev in UNSAFE_ERRORS:
@@ -1283,7 +1465,7 @@ def decode_sites(repo, tier):
                     o["replay_hint"] = hint
                     obls.append(o)
                     continue
-                codecs_ = _codec_values(fnode, enc)
+                codecs_ = _codec_values(fnode, enc, 0, ix)
                 if codecs_ is None:
                     o = ground_obligation(oid, False, f"{loc} {src}: the codec name comes from the input; codecs such as unicode_escape / raw_unicode_escape / "
                                                        f"utf-7 decode to lone surrogates even with errors={ev!r}", rel, definite=False)
@@ -1333,7 +1515,7 @@ def decode_sites(repo, tier):
             per_fn.setdefault(q, []).append((n, why, definite))
         for q, sites in sorted(per_fn.items()):
             for k, (call, why, definite) in enumerate(sorted(sites, key=lambda x: (x[0].lineno, x[0].col_offset))):
-                o = ground_obligation(f"C04/{short(rel)}::{q}/wf#text-producer-site-{k}", False, f"{rel}:{call.lineno} {ast.unparse(call)[:80]}: {why}", rel, definite=definite)
+                o = ground_obligation(f"C04/{short(rel)}::{q}/call-pre#text-producer-wf@{k}", False, f"{rel}:{call.lineno} {ast.unparse(call)[:80]}: {why}", rel, definite=definite)
                 o["replay_hint"] = {"kind": "decode", "file": rel, "function": q, "ordinal": k, "source": ast.unparse(call)[:80]}
                 obls.append(o)
     obls.append(ground_obligation("C04/package/wf#other-text-producers-scanned", True,
@@ -1343,14 +1525,22 @@ def decode_sites(repo, tier):
 
 
 def literal_sites(repo, tier):
-    """No string literal of the package contains a surrogate code point."""
+    """No string literal of the package that can reach a result contains a surrogate code point.  Literals used as a regex
+    pattern, as a key of a translate table or in a membership / comparison test (typically code that REMOVES surrogates) are
+    not sources of text."""
     bad = []
     n = 0
     for rel, mod in modules(repo).items():
+        ix = Index(mod)
         for node in ast.walk(mod.tree):
             if isinstance(node, ast.Constant) and isinstance(node.value, str):
                 n += 1
                 if any(SUR_LO <= ord(ch) <= SUR_HI for ch in node.value):
+                    p = ix.parent.get(id(node))
+                    if isinstance(p, ast.Call) and dotted(p.func) in ("re.compile", "re.sub", "re.search", "re.match", "re.findall", "re.split") and p.args and p.args[0] is node:
+                        continue
+                    if isinstance(p, ast.Compare) or (isinstance(p, ast.Dict) and node in p.keys):
+                        continue
                     bad.append(f"{rel}:{node.lineno}")
     return {"obligations": [ground_obligation("C04/package/wf#string-literals-have-no-surrogates", not bad,
-                                              "; ".join(bad[:5]) or f"{n} string literals scanned", "package")], "functions": []}
+                                              "; ".join(bad[:5]) or f"{n} string literals scanned", "package", definite=False)], "functions": []}
